@@ -1,4 +1,5 @@
 import RtenVerif.Props.C10List
+import RtenVerif.Props.C10On
 
 /-!
 # C10.T2 — graph-level theorem over operator kinds
@@ -115,10 +116,30 @@ theorem agrees_values (σ : Env) (t : STn) (c : CT) (es : List Sym) (h : Agrees 
   | shape ds => simp [STn.values] at hv
   | unknown => simp [STn.values] at hv
 
-/-- **T1 for every proved kind**, in one statement. `hr` (soundness of `range`, C11.T2) is only
-used by `equal`. -/
-theorem c10_kind_sound (σ : Env) (hr : ∀ e : Sym, RangeSound σ e) (k : Kind) (hk : k.proved = true)
-    (ts : List STn) (cs : List CT) (r : STn) (cr : CT)
+/-- Every element of every value-carrying input is `good` (stays inside `i32` under `σ`). -/
+def goodInputs (σ : Env) (ts : List STn) : Bool :=
+  ts.all fun t => match t.values with
+    | some es => es.all (good σ)
+    | none => true
+
+/-- What a kind needs from its symbolic operands: only `equal` inspects `range()`. -/
+def Kind.needs (σ : Env) (k : Kind) (ts : List STn) : Bool :=
+  match k with
+  | .equal => goodInputs σ ts
+  | _ => true
+
+theorem elemsOn_of_good (σ : Env) (ts : List STn) (h : goodInputs σ ts = true) :
+    ∀ t ∈ ts, ElemsOn (fun e => good σ e = true) t := by
+  intro t ht es hes e he
+  have := (List.all_eq_true.mp h) t ht
+  simp only [hes, List.all_eq_true] at this
+  exact this e he
+
+/-- **T1 for every proved kind**, in one statement. The only side condition is local: the
+operands an `equal` node inspects stay inside `i32` (`Kind.needs`), which makes `range()` sound for
+them (`rangeSound_of_good`). -/
+theorem c10_kind_sound (σ : Env) (k : Kind) (hk : k.proved = true)
+    (ts : List STn) (cs : List CT) (r : STn) (cr : CT) (hn : k.needs σ ts = true)
     (hag : AgreesL σ ts cs) (hi : k.infer ts = some r) (he : k.exec cs = some cr) : Agrees σ r cr := by
   cases k with
   | add =>
@@ -174,6 +195,7 @@ theorem c10_kind_sound (σ : Env) (hr : ∀ e : Sym, RangeSound σ e) (k : Kind)
           simp only [Kind.exec] at he
           exact c10_symBinary_sound σ divOp _ (c10_div_hom σ) _ _ r _ _ cr ha hb hi he
   | equal =>
+    have hel := elemsOn_of_good σ ts (by simpa [Kind.needs] using hn)
     cases hag with
     | nil => simp [Kind.infer] at hi
     | cons ha h1 =>
@@ -185,7 +207,8 @@ theorem c10_kind_sound (σ : Env) (hr : ∀ e : Sym, RangeSound σ e) (k : Kind)
         | nil =>
           simp only [Kind.infer] at hi
           simp only [Kind.exec] at he
-          exact c10_symBinary_sound σ eqOp _ (c10_equal_hom σ hr) _ _ r _ _ cr ha hb hi he
+          exact c10_symBinary_soundOn σ _ eqOp _ (c10_equal_hom_good σ) _ _ r _ _ cr ha hb
+            (hel _ (by simp)) (hel _ (by simp)) hi he
   | whereK =>
     cases hag with
     | nil => simp [Kind.infer] at hi
@@ -430,43 +453,94 @@ theorem agreesL_of_all (σ : Env) (s : Nat → STn) (c : Nat → Option CT) (h :
         simp only [hr] at h1; cases h1
         exact .cons (h i ct hi) (ih cts hr)
 
-/-- **C10.T2 (kinds)**: every node whose kind is in the proved set satisfies `NodeSound` … -/
-theorem c10_knode_sound (σ : Env) (hr : ∀ e : Sym, RangeSound σ e) (n : KNode) (hk : n.kind.proved = true) :
-    NodeSound σ n.toPNode := by
-  intro s c hall ct hex
-  simp only [KNode.toPNode] at hex ⊢
-  cases hm : mapO c n.ins with
-  | none => simp [hm] at hex
-  | some cs =>
-    simp only [hm, Option.bind_some] at hex
-    cases hinf : n.kind.infer (n.ins.map s) with
-    | none => simp [Agrees]
-    | some r =>
-      simp only [Option.getD_some]
-      exact c10_kind_sound σ hr n.kind hk _ cs r ct (agreesL_of_all σ s c hall n.ins cs hm) hinf hex
+/-- One step of a plan of kinds: inference and execution side by side. -/
+def KNode.stepS (n : KNode) (s : Nat → STn) : Nat → STn := upd s n.out ((n.kind.infer (n.ins.map s)).getD .unknown)
+def KNode.stepC (n : KNode) (c : Nat → Option CT) : Nat → Option CT := upd c n.out ((mapO c n.ins).bind n.kind.exec)
 
-/-- … hence over any plan consisting of proved kinds, every executed value agrees with the
-inferred tensor. Nodes of kind `other` (all rules without a T1) are excluded by the decidable
-predicate `Kind.proved`. -/
-theorem c10_plan_sound_kinds (σ : Env) (hr : ∀ e : Sym, RangeSound σ e) (plan : List KNode)
-    (hp : ∀ n ∈ plan, n.kind.proved = true) (s : Nat → STn) (c : Nat → Option CT) (h : AllAgree σ s c) :
-    AllAgree σ (runPlan (plan.map KNode.toPNode) s c).1 (runPlan (plan.map KNode.toPNode) s c).2 := by
-  apply c10_plan_sound σ _ s c _ h
-  intro p hpm
-  obtain ⟨n, hn, rfl⟩ := List.mem_map.mp hpm
-  exact c10_knode_sound σ hr n (hp n hn)
+def runK : List KNode → (Nat → STn) → (Nat → Option CT) → (Nat → STn) × (Nat → Option CT)
+  | [], s, c => (s, c)
+  | n :: ns, s, c => runK ns (n.stepS s) (n.stepC c)
 
-/-- Non-vacuity: `x : [n, 4]` (executed `[3, 4]`), `Shape(x)`, `Gather(·, 0)`, `Mul(·, ·)`, `Unsqueeze`,
-`Concat` — every kind is proved, inference yields `[n * n, n, 4]`-style values and execution the numbers. -/
+/-- The local side condition along the inference run: whenever an `equal` node is reached, the
+operand elements it inspects are `good` (decidable; nothing is required of any other kind). -/
+def needsAlong (σ : Env) : List KNode → (Nat → STn) → Bool
+  | [], _ => true
+  | n :: ns, s => n.kind.needs σ (n.ins.map s) && needsAlong σ ns (n.stepS s)
+
+/-- **C10.T2 (one node)**. -/
+theorem c10_knode_sound (σ : Env) (n : KNode) (hk : n.kind.proved = true) (s : Nat → STn) (c : Nat → Option CT)
+    (hn : n.kind.needs σ (n.ins.map s) = true) (hall : AllAgree σ s c) : AllAgree σ (n.stepS s) (n.stepC c) := by
+  intro id ct hc
+  unfold KNode.stepS KNode.stepC upd at *
+  by_cases hid : id = n.out
+  · simp only [hid, if_true] at hc ⊢
+    cases hm : mapO c n.ins with
+    | none => simp [hm] at hc
+    | some cs =>
+      simp only [hm, Option.bind_some] at hc
+      cases hinf : n.kind.infer (n.ins.map s) with
+      | none => simp [Agrees]
+      | some r =>
+        simp only [Option.getD_some]
+        exact c10_kind_sound σ n.kind hk _ cs r ct hn (agreesL_of_all σ s c hall n.ins cs hm) hinf hc
+  · simp only [hid, if_false] at hc ⊢
+    exact hall id ct hc
+
+/-- **C10.T2 (kinds)**: over any plan whose nodes all have a proved kind (`Kind.proved`, decidable;
+everything else is `Kind.other`), and along which the operands of `equal` nodes stay inside `i32`
+(`needsAlong`, decidable), every executed value agrees with its inferred tensor. No global
+hypothesis about `range()` is needed (audit H1). -/
+theorem c10_plan_sound_kinds (σ : Env) : ∀ (plan : List KNode) (s : Nat → STn) (c : Nat → Option CT),
+    (∀ n ∈ plan, n.kind.proved = true) → needsAlong σ plan s = true → AllAgree σ s c →
+    AllAgree σ (runK plan s c).1 (runK plan s c).2 := by
+  intro plan
+  induction plan with
+  | nil => intro s c _ _ h; exact h
+  | cons n ns ih =>
+    intro s c hp hn h
+    simp only [needsAlong, Bool.and_eq_true] at hn
+    simp only [runK]
+    exact ih _ _ (fun m hm => hp m (by simp [hm])) hn.2
+      (c10_knode_sound σ n (hp n (by simp)) s c hn.1 h)
+
+/-- Non-vacuity (closed instance of every hypothesis of `c10_plan_sound_kinds`): `x : [n, 4]`
+executed as `[3, 4]`; `Shape(x)`, `Gather(·, 0)`, `Mul(·, ·)`, `Unsqueeze`, `Concat`, and an `Equal`
+of the gathered dimension with itself and with the constant-folded product.  Every kind is proved,
+the operands of `Equal` are `good`, inference yields `[n * n, n, 4]` and `[1]`-style values and
+execution the numbers. -/
 def demoKPlan : List KNode :=
-  [ ⟨1, .shape none none, [0]⟩, ⟨2, .gatherS 0, [1]⟩, ⟨3, .mul, [2, 2]⟩, ⟨4, .unsqueeze0, [3]⟩, ⟨5, .concat, [4, 1]⟩ ]
+  [ ⟨1, .shape none none, [0]⟩, ⟨2, .gatherS 0, [1]⟩, ⟨3, .mul, [2, 2]⟩, ⟨4, .unsqueeze0, [3]⟩,
+    ⟨5, .concat, [4, 1]⟩, ⟨6, .equal, [2, 2]⟩, ⟨7, .equal, [1, 5]⟩ ]
 
-example : (demoKPlan.all fun n => n.kind.proved) = true ∧
-    (runPlan (demoKPlan.map KNode.toPNode) (fun i => if i = 0 then .shape [.var "n" true, .val 4] else .unknown)
-      (fun i => if i = 0 then some (.shaped [3, 4]) else none)).1 5
-      = .vector [.mul (.var "n" true) (.var "n" true), .var "n" true, .val 4] ∧
-    (runPlan (demoKPlan.map KNode.toPNode) (fun i => if i = 0 then .shape [.var "n" true, .val 4] else .unknown)
-      (fun i => if i = 0 then some (.shaped [3, 4]) else none)).2 5 = some (.vector [9, 3, 4]) := by
+def demoσ : Env := fun x => if x = "n" then some 3 else none
+def demoS : Nat → STn := fun i => if i = 0 then .shape [.var "n" true, .val 4] else .unknown
+def demoC : Nat → Option CT := fun i => if i = 0 then some (.shaped [3, 4]) else none
+
+theorem demo_hyps : (∀ n ∈ demoKPlan, n.kind.proved = true) ∧ needsAlong demoσ demoKPlan demoS = true := by
+  constructor
+  · decide
+  · decide
+
+theorem demo_inputs_agree : AllAgree demoσ demoS demoC := by
+  intro id ct h
+  unfold demoC at h
+  by_cases h0 : id = 0
+  · subst h0; simp at h; subst h; simp [demoS, Agrees, evalList, mapO, Sym.eval, demoσ, CT.dims]
+  · simp [h0] at h
+
+example : (runK demoKPlan demoS demoC).1 5 = .vector [.mul (.var "n" true) (.var "n" true), .var "n" true, .val 4] ∧
+    (runK demoKPlan demoS demoC).2 5 = some (.vector [9, 3, 4]) ∧
+    (runK demoKPlan demoS demoC).1 6 = .scalar (.val 1) ∧ (runK demoKPlan demoS demoC).2 6 = some (.scalar 1) := by
   decide
+
+/-- The instance of the theorem itself. -/
+example : AllAgree demoσ (runK demoKPlan demoS demoC).1 (runK demoKPlan demoS demoC).2 :=
+  c10_plan_sound_kinds demoσ demoKPlan demoS demoC demo_hyps.1 demo_hyps.2 demo_inputs_agree
+
+/-- Closed instance of `c10_kind_sound` for `equal` where the fold to 0 really uses `range()`:
+`Equal(min(n, 5) + 10, 3)` with `n = 3`: ranges `(10, 15)` and `(3, 3)` are disjoint, executed 0. -/
+example : Kind.equal.needs demoσ [.scalar (.add (.min (.var "n" true) (.val 5)) (.val 10)), .scalar (.val 3)] = true ∧
+    Kind.equal.infer [.scalar (.add (.min (.var "n" true) (.val 5)) (.val 10)), .scalar (.val 3)] = some (.scalar (.val 0)) ∧
+    Kind.equal.exec [.scalar 13, .scalar 3] = some (.scalar 0) := by decide
 
 end RtenVerif.ShapeInfer
